@@ -35,8 +35,8 @@ def ck_div(args, res, exc):
     # two listed known findings, each delimited exactly; every other excess is a different violation
     if l > 2 * f + 1 and res == 0:
         return ('class', 'l>2f+1:quotient-is-0', msg + ' (the normalisation constant 2^(f-l+1) of _norm is below the resolution 2^-f and rounds to 0)')
-    if l <= 2 * f + 1 and abs(y) < 1 and err <= 16 * (1 + abs(x) + abs(x / y)):
-        return ('class', 'divisor-below-1:error-proportional-to-quotient', msg + f' (within 16(1+|x|+|x/y|) = {float(16 * (1 + abs(x) + abs(x / y))):.2f}: the Newton '
+    if l <= 2 * f + 1 and abs(y) < 1 and err <= 16 * (1 + abs(x)) + 2 * abs(x / y):
+        return ('class', 'divisor-below-1:error-proportional-to-quotient', msg + f' (within 16(1+|x|) + 2|x/y| = {float(16 * (1 + abs(x)) + 2 * abs(x / y)):.2f}: the Newton '
                 'reciprocal is accurate to a few units RELATIVE to 1/y)')
     return msg
 
@@ -53,6 +53,18 @@ def in_div_f8(tier):
             for a in as_:
                 if abs(Fraction(a, b)) * one < half - 16 * (one + abs(a) + abs(Fraction(a * one, b))) / one - 1:
                     yield (l, f, a, b)
+
+
+def in_div_bands(tier):
+    """the number of Newton iterations of _rec is ceil(log2((f+1)/3.54)): f = 6, 13, 27, 55 are the largest f of each band (least margin);
+    divisors at and just below / above powers of two (the ends of the normalised interval [1/2, 1])"""
+    for l, f in ((12, 6), (26, 13), (54, 27), (110, 55)) + (((14, 7), (28, 14), (56, 28), (40, 20), (48, 24)) if tier != 'quick' else ()):
+        one = 1 << f
+        for j in (-2, -1, 0, 1, 2, 3):
+            base = one << j if j >= 0 else one >> -j
+            for b in (base, base - 1, base + 1, -base, -base + 1, base + base // 2, base - base // 128, -(base + base // 3)):
+                for a in (one, 3 * one + 7, -(one // 3), 0):
+                    if abs(b) >= 1 and abs(Fraction(a, b)) < (1 << (l - f - 2)): yield (l, f, a, b)
 
 
 def in_div_wide(tier):
@@ -85,8 +97,8 @@ def ck_rec(args, res, exc):
     err = abs(Fraction(res) - Fraction(one, b)) * one
     if err <= 16 * 2: return True
     msg = f'1/y for y = {b}/{one}: got {float(res)}, off by {float(err):.2f} units > 32'
-    if l <= 2 * f + 1 and abs(b) < one and err <= 16 * (2 + abs(Fraction(one, b))):
-        return ('class', 'divisor-below-1:error-proportional-to-quotient', msg + ' (within 16(2+|1/y|))')
+    if l <= 2 * f + 1 and abs(b) < one and err <= 32 + 2 * abs(Fraction(one, b)):
+        return ('class', 'divisor-below-1:error-proportional-to-quotient', msg + ' (within 32 + 2|1/y|)')
     return msg
 
 
@@ -181,6 +193,28 @@ def in_gcd(tier):
         for b in range(lo, hi): yield (L, a, b)
 
 
+def call_inv(L, a, b):
+    mpc = _mpc(); S = mpc.SecInt(2 * L + 2)
+    return _out(mpc, mpc.inverse(S(a), S(b), l=L)), _out(mpc, list(mpc.gcdext(S(a), S(b), l=L)))
+
+
+def ck_inv(args, res, exc):
+    L, a, b = args
+    if exc: return f'unexpected {type(exc).__name__}: {exc}'
+    inv, (g, s, t) = res
+    if not (0 <= inv < b and inv * a % b == 1 % b): return f'inverse({a}, {b}) = {inv}, expected {pow(a, -1, b)}'
+    if g != 1 or s * a + t * b != 1: return f'gcdext({a}, {b}) = {(g, s, t)}: not Bezout coefficients of 1'
+    return True
+
+
+def in_inv(tier):
+    B = 40 if tier == 'quick' else 128
+    L = B.bit_length() + 1
+    for b in range(2, B):
+        for a in range(1, b):
+            if math.gcd(a, b) == 1: yield (L, a, b)
+
+
 # ---------------------------------------------------------------- conversions involving secure fields (C06)
 def call_conv(q, signed, v, l):
     mpc = _mpc()
@@ -245,8 +279,11 @@ def in_conv_ff(tier):
 
 
 NATIVE = {n.name: n for n in [
+    Native('int_inverse', 'mpyc.runtime.Runtime.inverse/gcdext', call_inv, ck_inv, in_inv, 'all coprime pairs 1 <= a < b < 40 (thorough 128)'),
     Native('fxp_div_f8', 'mpyc.runtime.Runtime.div/_rec/_norm', call_div, ck_div, in_div_f8,
            'SecFxp(16,8), SecFxp(24,12) (thorough + SecFxp(32,16)): 36 divisors (1..23 units, around 1/2, 1, 3, -5, max/3) x 17 (51) dividends, quotient in range'),
+    Native('fxp_div_bands', 'mpyc.runtime.Runtime.div/_rec/_norm', call_div, ck_div, in_div_bands,
+           'SecFxp(2f,f) for f = 6, 13, 27, 55 (thorough + 7, 14, 28, 20, 24): divisors at / next to +-2^j (j = -2..3), 1.5*2^j, 4 dividends'),
     Native('fxp_div_wide', 'mpyc.runtime.Runtime.div/_rec/_norm', call_div, ck_div, in_div_wide, 'SecFxp(12,4), (16,6), (32,14), (64,16): 8 quotients each'),
     Native('fxp_div', 'mpyc.runtime.Runtime.div/_rec/_norm', call_div, ck_div, in_div, 'SecFxp(8,4): all divisors, every 7th dividend (thorough: all pairs, + SecFxp(12,6) every 5th divisor, every 97th dividend); results in range'),
     Native('fxp_reciprocal', 'mpyc.runtime.Runtime._rec/_norm', call_rec, ck_rec, in_rec, 'SecFxp(8,4), (12,6) (thorough + (16,8)): all representable y with 1/y in range'),
@@ -259,7 +296,7 @@ NATIVE = {n.name: n for n in [
     Native('field_conversions_gf2_signed', 'mpyc.runtime.Runtime.convert/_convert[signed-GF(2)]', call_conv, ck_conv, in_conv_gf2_signed, 'signed GF(2), both elements'),
 ]}
 for _n in NATIVE.values(): _n.module = 'contracts.runtime_native'
-BY_PROP = {'C02': ['fxp_div', 'fxp_div_f8', 'fxp_div_wide', 'fxp_reciprocal', 'fxp_sincos', 'fxp_pow'], 'C01': ['int_gcd_family'], 'C06': ['field_conversions', 'field_conversions_field_to_field', 'field_conversions_gf2_signed']}
+BY_PROP = {'C02': ['fxp_div', 'fxp_div_f8', 'fxp_div_bands', 'fxp_div_wide', 'fxp_reciprocal', 'fxp_sincos', 'fxp_pow'], 'C01': ['int_gcd_family', 'int_inverse'], 'C06': ['field_conversions', 'field_conversions_field_to_field', 'field_conversions_gf2_signed']}
 
 
 def tasks(tier, prop):
